@@ -74,7 +74,8 @@ def gen_case(rng: random.Random, thorough=False, cli=False):
             'card_names': rng.random() < 0.15, 'take': None,
             # per-batch combination cap: mostly not binding; small caps make different pairs be scored in different batches, so a
             # pair can appear for the first time in a LATER batch (checkpoints / medians must still cover every batch so far)
-            'cap': rng.choice([2048, 2048, 2048, 1, 2, 3]) if not cli else 2048}
+            'cap': rng.choice([2048, 2048, 2048, 1, 2, 3]) if not cli else 2048,
+            'ctrl': rng.random() < 0.3}
 
 
 def build(case):
@@ -98,7 +99,12 @@ def build(case):
             elif c == 'rid':
                 vals.append(str(i))
             else:
-                vals.append(str((y * r.randrange(3) + r.randrange(4)) % 5))
+                v = str((y * r.randrange(3) + r.randrange(4)) % 5)
+                if case.get('ctrl') and r.random() < 0.04:
+                    # separators that str.splitlines() honours but text-mode file iteration and the csv module do not:
+                    # a data row containing one is still ONE row at ONE file position
+                    v += r.choice(['\x0b', '\x0c', '\x1c', '\x1d', '\x1e'])
+                vals.append(v)
         return ','.join(vals)
 
     def bad(i):
